@@ -159,7 +159,8 @@ def main():
         sys.exit(-1)
 
     except InternalBug as e:
-        print(str(e), file=sys.stderr)
+        if sys.stderr is not None:
+            print(str(e), file=sys.stderr)
         sys.exit(-1)
 
     except BrokenPipeError:
